@@ -14,7 +14,7 @@ import gc
 import weakref
 import itertools
 import tracemalloc
-from vmon.wsgi import make_environ, call_app, RecStream
+from vmon.wsgi import make_environ, call_app, RecStream, check_framing
 
 RULE = ('request kinds {success with cookie+header+status, plain success, raised response with cookie, abort, 404, 404 as JSON, 405, undecodable '
         'path, malformed chunked body, malformed multipart, oversized body, handler crash, HEAD, generator body, form post, signed cookie} in two '
@@ -127,9 +127,9 @@ def kinds():
         'notfound_json': lambda m: dict(method='GET', path='/nf/' + m, headers={'Accept': 'application/json'}),
         'notallowed': lambda m: dict(method='DELETE', path='/ok', qs='m=' + m),
         'badpath': lambda m: dict(method='GET', path='/x', raw_path='/caf\xe9/' + m, qs='u=' + m),
-        'badchunk': lambda m: dict(method='POST', path='/body', stream=b'zz\r\n' + m.encode(), chunked=True, content_length=None),
-        'badmultipart': lambda m: dict(method='POST', path='/form', body=mp(m)[:-12], content_type='multipart/form-data; boundary=B'),
-        'oversized': lambda m: dict(method='POST', path='/body', body=m.encode() * 200),
+        'badchunk': lambda m: dict(method='POST', path='/body', qs='m=' + m, stream=b'zz\r\n' + m.encode(), chunked=True, content_length=None),
+        'badmultipart': lambda m: dict(method='POST', path='/form', qs='m=' + m, body=mp(m)[:-12], content_type='multipart/form-data; boundary=B'),
+        'oversized': lambda m: dict(method='POST', path='/body', qs='m=' + m, body=m.encode() * 200),
         'crash': lambda m: dict(method='GET', path='/crash', qs='m=' + m),
         'head': lambda m: dict(method='HEAD', path='/ok', qs='m=' + m),
         'gen': lambda m: dict(method='GET', path='/gen', qs='m=' + m),
@@ -140,7 +140,7 @@ def kinds():
     return K
 
 
-VARIANTS = ['A1', 'B2']
+VARIANTS = ['A1', 'B22xx']      # different lengths: pages that embed the URL differ in size
 SUCCESS = {'ok', 'plain', 'raise', 'head', 'gen', 'form', 'urlform', 'signed'}
 SHARED_ERR = {'badchunk', 'badmultipart', 'oversized'}
 
@@ -215,6 +215,11 @@ def run_history(ctx, app, K, base, hist, covered):
         g = resp_key(r)
         b = base[(kind, m)]
         ctx.count('history_requests_compared')
+        fr = check_framing(r, r.env['REQUEST_METHOD'])
+        if fr or r.problems:
+            ctx.violation(f'malformed-response-in-history:{kind}', f'history {hist[:i + 1]}: request {i} ({kind}/{m}): {fr} {r.problems}',
+                          {'unit': {'kind': 'hist', 'history': [list(h) for h in hist[:i + 1]]}})
+            return False
         if prev is not None:
             covered.add((prev[0], kind))
             if prev[0] in SUCCESS and kind not in SUCCESS:
